@@ -1172,7 +1172,13 @@ fn execute(c: &'static CaseDesc, inner: Option<&'static CaseDesc>, vals: &[f64],
                 pres.alpha_present = true;
             }
             let peer = Peer::new(de_fail.map(|k| k as usize));
-            let got = (c.ops.replay)(&tok, &pres, &peer, vals);
+            // what the document says: where it carries no alpha, the only right answer (if it is accepted at all) is
+            // full opacity — the outcome's own `==` must be taken against that, not against the alpha that was left out
+            let mut said = vals.to_vec();
+            if has_alpha && !pres.alpha_present {
+                said[c.nvals - 1] = max_alpha(c);
+            }
+            let got = (c.ops.replay)(&tok, &pres, &peer, &said);
             ctx.stats.steps += peer.calls.get() as u64;
             if peer.fired.get() {
                 ctx.fired("peer:error@call-k(de)");
@@ -1186,9 +1192,7 @@ fn execute(c: &'static CaseDesc, inner: Option<&'static CaseDesc>, vals: &[f64],
                         // The plain impls reject such a document today. The property only says what a
                         // missing alpha may turn into (full opacity), so accepting it is wrong only if
                         // the color or the alpha that comes out is something else.
-                        let mut expect = vals.to_vec();
-                        expect[c.nvals - 1] = max_alpha(c);
-                        if judge_value(ctx, c, "document without alpha accepted", &key, &o, &expect) {
+                        if judge_value(ctx, c, "document without alpha accepted", &key, &o, &said) {
                             return;
                         }
                         ctx.probe("missing-alpha-accepted-as-opaque");
@@ -1425,8 +1429,14 @@ fn execute(c: &'static CaseDesc, inner: Option<&'static CaseDesc>, vals: &[f64],
             let document = json_doc(c, vals, doc).unwrap_or_else(|| text.clone());
             let bytes = document.as_bytes();
             let expect_err = matches!(doc, Doc::MissingAlpha { .. } | Doc::DuplicateAlpha) && json_doc(c, vals, doc).is_some();
-            let baseline = (c.ops.json_from_slice)(bytes, vals);
-            let via_str = (c.ops.json_from_str)(&document, vals);
+            // what the document says (full opacity where it carries no alpha): see the SimFormat kind
+            let mut said = vals.to_vec();
+            if matches!(doc, Doc::MissingAlpha { .. }) && expect_err {
+                said[c.nvals - 1] = max_alpha(c);
+            }
+            let said: &[f64] = &said;
+            let baseline = (c.ops.json_from_slice)(bytes, said);
+            let via_str = (c.ops.json_from_str)(&document, said);
             ctx.checked();
             ctx.state(&(c.name, kname, std::mem::discriminant(doc), std::mem::discriminant(&read.fault), std::mem::discriminant(&write.fault), baseline.is_ok()));
             ev!(ctx, "document {document:?} -> {}", match &baseline { Ok(_) => "ok".to_string(), Err(e) => format!("err({e})") });
@@ -1463,11 +1473,7 @@ fn execute(c: &'static CaseDesc, inner: Option<&'static CaseDesc>, vals: &[f64],
                     // Documents palette never writes (no alpha / alpha twice, both times the same value) are
                     // rejected today. Nothing in the property demands the rejection; accepting one is wrong
                     // only if what comes out is not the color (with full opacity where alpha was missing).
-                    let mut expect = vals.to_vec();
-                    if matches!(doc, Doc::MissingAlpha { .. }) {
-                        expect[c.nvals - 1] = max_alpha(c);
-                    }
-                    if judge_value(ctx, c, "hand-written document accepted", &key, o, &expect) {
+                    if judge_value(ctx, c, "hand-written document accepted", &key, o, said) {
                         return;
                     }
                     ctx.probe("odd-document-accepted-with-right-value");
@@ -1484,7 +1490,7 @@ fn execute(c: &'static CaseDesc, inner: Option<&'static CaseDesc>, vals: &[f64],
             }
             // reader under faults: identical to from_slice on the bytes that were delivered
             let mut r = SimReader::new(bytes, read);
-            let got = (c.ops.json_from_reader)(&mut r, vals);
+            let got = (c.ops.json_from_reader)(&mut r, said);
             note_io(ctx, &r.stats, true);
             ctx.checked();
             if let Some(a) = document.find("alpha") {
@@ -1509,7 +1515,7 @@ fn execute(c: &'static CaseDesc, inner: Option<&'static CaseDesc>, vals: &[f64],
                 }
                 IoFault::StopAt(k) => {
                     let cut = (k as usize).min(bytes.len());
-                    let prefix = (c.ops.json_from_slice)(&bytes[..cut], vals);
+                    let prefix = (c.ops.json_from_slice)(&bytes[..cut], said);
                     if norm(&got) != norm(&prefix) {
                         ctx.fail("from_reader-vs-from_slice", &key, format!("{}: EOF after {cut} bytes: from_reader gives {got:?}, from_slice on the prefix gives {prefix:?}", c.name));
                     }
@@ -1760,6 +1766,9 @@ fn execute(c: &'static CaseDesc, inner: Option<&'static CaseDesc>, vals: &[f64],
                     if judge_value(ctx, c, &format!("{sname} enum payload through {vname}"), &key, &outcome, vals) {
                         return;
                     }
+                    if *style == 3 {
+                        cross_offer(ctx, c, &key, &text);
+                    }
                     // "an `alpha` field at the same level": an internally tagged enum puts its tag into the color's
                     // own object, so there is exactly one object and one `alpha` key in it
                     if *style == 1 && *via != 2 && c.shape == Shape::Struct && c.wrapper != Wrapper::None {
@@ -1771,33 +1780,12 @@ fn execute(c: &'static CaseDesc, inner: Option<&'static CaseDesc>, vals: &[f64],
                 }
                 Ok(cases::EnumRound::OtherVariant { text, which, back_text }) => {
                     // Another color type of the enum took the document. That is serde's business as long as the
-                    // type found all of its own components in the document: what comes back may hold nothing
-                    // that was not written (a component made up for a key the document does not have is wrong data)
-                    ctx.checked();
+                    // type found all of its own components in the document (see `nothing_made_up`)
                     ctx.probe("document-taken-by-another-color-type-of-the-enum");
-                    let (orig, back) = (serde_json::from_str::<serde_json::Value>(&text), serde_json::from_str::<serde_json::Value>(&back_text));
-                    match (orig, back) {
-                        (Ok(serde_json::Value::Object(o)), Ok(serde_json::Value::Object(b))) => {
-                            for (k, v) in &b {
-                                let same = match (o.get(k).and_then(|x| x.as_f64()), v.as_f64()) {
-                                    // the other color types of the enum are all `f32` ones: compare at that width
-                                    (Some(x), Some(y)) => (x as f32) == (y as f32),
-                                    _ => false,
-                                };
-                                if !same {
-                                    ctx.fail(
-                                        "round-trip:enum-among-colors",
-                                        &key,
-                                        format!("{}: written as {text}, read back through an untagged enum of colors as {which} {back_text}: component `{k}` is not what the document says", c.name),
-                                    );
-                                    return;
-                                }
-                            }
-                        }
-                        _ => {
-                            ctx.fail("round-trip:enum-among-colors", &key, format!("{}: written as {text}, read back as {which} {back_text}: not two objects", c.name));
-                        }
+                    if nothing_made_up(ctx, c, &key, &text, which, &back_text) {
+                        return;
                     }
+                    cross_offer(ctx, c, &key, &text);
                 }
                 Ok(cases::EnumRound::NotExpressible(why)) => {
                     // serde cannot tag a sequence, a number or a unit internally; a named-field color is a map and
@@ -1936,6 +1924,63 @@ fn execute(c: &'static CaseDesc, inner: Option<&'static CaseDesc>, vals: &[f64],
                     ctx.fail("deserialize-failed", &key, format!("{}: round trip through serde_json::Value failed: {e}", c.name));
                 }
             }
+        }
+    }
+}
+
+
+/// "What comes back holds nothing the document does not say." A document written for one color type and accepted by
+/// another one (in a user's untagged enum, serde tries the listed types in order) is serde's business as long as the
+/// accepting type found all of its components in the document: every number of the accepted value must be one of the
+/// document's numbers (compared at `f32` width, each used once; which key it came from is not judged — a type is free
+/// to know another type's field under an alias; a hue may differ by whole turns — a type is free to normalise). Full
+/// opacity for a document without alpha is what the property itself allows. A component made up for a key the
+/// document does not have is wrong data. Returns true if it failed.
+fn nothing_made_up(ctx: &mut Ctx<'_>, c: &CaseDesc, key: &str, text: &str, which: &str, back_text: &str) -> bool {
+    ctx.checked();
+    let (orig, back) = (serde_json::from_str::<serde_json::Value>(text), serde_json::from_str::<serde_json::Value>(back_text));
+    let (o, b) = match (orig, back) {
+        (Ok(serde_json::Value::Object(o)), Ok(serde_json::Value::Object(b))) => (o, b),
+        _ => return false, // not two objects: sequences and bare numbers carry no names to take the wrong way
+    };
+    let mut pool: Vec<f32> = o.values().filter_map(|x| x.as_f64()).map(|x| x as f32).collect();
+    for (k, v) in &b {
+        let Some(y) = v.as_f64().map(|y| y as f32) else { continue };
+        if k == "alpha" && !o.contains_key("alpha") && y == 1.0 {
+            continue;
+        }
+        let hit = pool.iter().position(|x| *x == y).or_else(|| {
+            if k == "hue" {
+                pool.iter().position(|x| {
+                    let d = ((*x as f64) - (y as f64)).rem_euclid(360.0);
+                    d.min(360.0 - d) < 1e-2
+                })
+            } else {
+                None
+            }
+        });
+        match hit {
+            Some(i) => {
+                pool.swap_remove(i);
+            }
+            None => {
+                return ctx.fail(
+                    "round-trip:color-read-as-another-color-type",
+                    key,
+                    format!("{}: written as {text}, accepted as {which} {back_text}: component `{k}` = {y} is nowhere in the document", c.name),
+                );
+            }
+        }
+    }
+    false
+}
+
+/// The same question for every serializable color family, in no particular order.
+fn cross_offer(ctx: &mut Ctx<'_>, c: &CaseDesc, key: &str, text: &str) {
+    for (which, back_text) in cases::cross_read(text) {
+        ctx.extra("documents-accepted-by-another-color-type", 1);
+        if nothing_made_up(ctx, c, key, text, which, &back_text) {
+            return;
         }
     }
 }
